@@ -109,7 +109,7 @@ func opParEpochs(g *G) (interface{}, []uint64, int, interface{}) {
 		}
 		fresh = append(fresh, fr)
 		var v *string
-		if ok, verr := pop.Verify(); !ok || verr != nil {
+		if ok, verr := safeVerify(pop); !ok || verr != nil {
 			v = errStr(verr)
 			if v == nil {
 				s := "Verify returned false"
